@@ -8,6 +8,10 @@ Streams (domain `lh`, see ocaml/drv_lh.ml for the line formats):
   B  json_object_object_add/_add_ex/_del/_get_ex/_length with string keys, lh_char_hash,
      the perl-like hash (with families of colliding strings) and scripted hashes, initial sizes
      1..40, NULL values, KEY_IS_NEW / CONSTANT_KEY, refused allocations, delete-while-iterating;
+     the environment may move during a history: json_global_set_string_hash (valid and invalid
+     selections) while objects hold members, and a second object created under the then-current
+     selection used in alternation with the first (objects are independent of each other and
+     of the selection after their creation);
   L  the load-factor expression `count >= size * 0.66` against the model's binary64 emulation.
 
 The direct oracle is an ordered-dict model of the property text, applied to the
@@ -30,7 +34,9 @@ TRUSTED = ["Coq 8.16.1 kernel (coqc), no axioms (Print Assumptions: closed under
 ASSUMPTIONS = ["binary64 round-to-nearest-even arithmetic for `size * 0.66` (SSE2; emulated exactly in the model and proved equal to "
                "66*size <= 100*count for 1 <= size <= INT_MAX)",
                "t->equal_fn is an equality on keys (strcmp for objects); calloc returns zeroed memory",
-               "JSON_C_OBJECT_ADD_KEY_IS_NEW is used only for absent keys (documented precondition)"]
+               "JSON_C_OBJECT_ADD_KEY_IS_NEW is used only for absent keys (documented precondition)",
+               "lh_kchar_table_new copies the hash selection current at creation into the table (modelled: LhModel.gstep; proved: "
+               "C06_world_history_refines; checked: ops h / o)"]
 
 U64 = (1 << 64) - 1
 ALPHA = "abcdefghijklmnopqrstuvwxyzABCDEFGHIJKLMNOPQRSTUVWXYZ0123456789 _-.:;!#$%&()*+<=>?@[]^{|}~'`,"
@@ -245,12 +251,25 @@ def gen_b(rng, tier):
             if hsel == 2:
                 hx += "@%d" % rng.choice([7, 7, 7, size - 1, rng.randrange(4), rng.randrange(1 << 64)])
             ktoks.append(hx)
-        live = set()
+        lives = [set(), set()]
+        cur = 0
+        live = lives[0]
         ops = []
         val = 0
+        # the environment moves under the object: the global hash selection changes while objects
+        # hold members, and a second object created under another selection is used in between
+        env = rng.random() < 0.5
         for _ in range(rng.randint(8, 60 if tier == "quick" else 300)):
             r = rng.random()
             val += 1
+            if env and r < 0.07:
+                ops.append("h%d" % rng.choice([0, 1, 0, 1, 0, 1, 2, -1, 7]))
+                continue
+            if env and r < 0.12:
+                ops.append("o")
+                cur = 1 - cur
+                live = lives[cur]
+                continue
             if r < 0.55:
                 k = rng.randrange(nk)
                 flags = 0
@@ -279,6 +298,64 @@ def gen_b(rng, tier):
     return out
 
 
+def gen_env(rng, tier):
+    """histories whose point is the environment: fill an object, change the global string-hash
+    selection to the OTHER function (and to invalid values), then look up / replace / delete /
+    iterate / grow; a second object is born under the new selection and both are used in turn"""
+    out = []
+    n = 60 if tier == "quick" else 800
+    for ci in range(n):
+        hsel = rng.choice([0, 1])
+        nk = rng.choice([3, 6, 12, 25])
+        keys, used = [], set()
+        while len(keys) < nk:
+            k = rand_key(rng, used)
+            used.add(k); keys.append(k)
+        size = rng.choice([16, 16, 1, 2, 3, 5, 8, rng.randint(9, 40)])
+        ktoks = [k.encode("latin-1").hex() or "-" for k in keys]
+        ops = []
+        val = 0
+        sel = hsel
+        lives = [set(), set()]
+        cur = 0
+
+        def some_ops(cnt):
+            nonlocal val
+            for _ in range(cnt):
+                val += 1
+                live = lives[cur]
+                r = rng.random()
+                if r < 0.5:
+                    k = rng.randrange(nk)
+                    flags = rng.choice([0, 0, 0, 2, 1, 3]) if k not in live else rng.choice([0, 0, 2])
+                    ops.append("a%d,%d,%d" % (k, val, flags)); live.add(k)
+                elif r < 0.85 and live:
+                    k = rng.choice(sorted(live)); ops.append("d%d" % k); live.discard(k)
+                elif r < 0.93:
+                    ks = [k for k in range(nk) if rng.random() < 0.3]
+                    ops.append("x" + (",".join(map(str, ks)) or "-"))
+                    for k in ks:
+                        live.discard(k)
+                else:
+                    ops.append("d%d" % rng.randrange(nk)); live.discard(int(ops[-1][1:]))
+        # fill first: the object must hold members when the selection changes
+        for k in rng.sample(range(nk), rng.randint(2, nk)):
+            val += 1
+            ops.append("a%d,%d,0" % (k, val)); lives[0].add(k)
+        for _ in range(rng.randint(2, 6)):
+            r = rng.random()
+            if r < 0.6:
+                sel = 1 - sel
+                ops.append("h%d" % sel)
+            elif r < 0.75:
+                ops.append("h%d" % rng.choice([2, -1, 99]))
+            else:
+                ops.append("o"); cur = 1 - cur
+            some_ops(rng.randint(2, 9))
+        out.append(("lh B %d %d 0 %s %s" % (hsel, size, ",".join(ktoks), ";".join(ops)), {"kind": "B-env-change"}))
+    return out
+
+
 def gen_l(rng, tier):
     out = [("lh L 1 4096 1", {"kind": "L-load-factor"}),
            ("lh L 50 2147483600 1048583", {"kind": "L-load-factor"}),     # step prime: all residues mod 50
@@ -292,7 +369,7 @@ def gen_l(rng, tier):
 
 
 def gen(rng, tier):
-    return gen_l(rng, tier) + gen_exhaustive(rng, tier) + gen_churn_a(rng, tier) + gen_b(rng, tier)
+    return gen_l(rng, tier) + gen_env(rng, tier) + gen_exhaustive(rng, tier) + gen_churn_a(rng, tier) + gen_b(rng, tier)
 
 
 # ------------------------------------------------------------------ direct oracle
@@ -333,6 +410,8 @@ def oracle(line, meta, impl):
     if len(steps) != len(ops) + 1:
         return ("malformed", "unexpected driver output (%d steps for %d ops): %s" % (len(steps), len(ops), impl[:120]))
     d = {}                      # the ordered-dict model: key index -> value token
+    pair = [d, None]            # mode B: two objects; the observation is of the current one
+    cur = 0
     for si, st in enumerate(steps):
         t = st.split(" ")
         if len(t) != (6 if mode == "A" else 5):
@@ -383,6 +462,19 @@ def oracle(line, meta, impl):
             elif c == "z":
                 if ret not in ("0", "-1"):
                     return ("ret", "resize returned %s" % ret)
+            elif c == "h":
+                # json_global_set_string_hash: 0 for the two documented selections, -1 otherwise; an
+                # object that exists is an ordered map regardless (checked below, as after every step)
+                want = "0" if body in ("0", "1") else "-1"
+                if ret != want:
+                    return ("ret", "json_global_set_string_hash(%s) returned %s at op %d" % (body, ret, si))
+            elif c == "o":
+                cur = 1 - cur
+                if pair[cur] is None:
+                    pair[cur] = {}
+                d = pair[cur]
+                if ret != "0":
+                    return ("ret", "object switch returned %s" % ret)
             elif c == "b":
                 for k in range(int(body)):
                     d[k] = str(k)
@@ -460,7 +552,7 @@ def search(rng, broken_lines):
         if p[1] == "A":
             for size in range(1, 9):
                 extra.append((" ".join(p[:2] + [str(size)] + p[3:]), {"kind": "search"}))
-    extra += gen_churn_a(rng, "quick") + gen_b(rng, "quick") + gen_exhaustive(rng, "quick")[:6000]
+    extra += gen_env(rng, "quick") + gen_churn_a(rng, "quick") + gen_b(rng, "quick") + gen_exhaustive(rng, "quick")[:6000]
     return extra
 
 
